@@ -387,7 +387,9 @@ package core
 //@   tag C15 C11 C01
 //@   requires DirWF(d) && d.Parent != nil && 0 <= d.Parent.type_ && d.Parent.type_ <= 29 && core.catalog != nil
 //@   requires d.BodyCoords.file != nil ==> d.BodyCoords.begin <= d.BodyCoords.end + 1 && d.BodyCoords.end < len(d.BodyCoords.file.content)
-//@   ensures [C15] ret == nil ==> old(d.BodyCoords.file != nil && d.BodyCoords.end != 0 && normLen(bodyOf(d.BodyCoords)) > 0)
+//@   ensures [C15] ret == nil ==> old(d.BodyCoords.file != nil)
+//@   ensures [C15] ret == nil ==> old(d.BodyCoords.end != 0)
+//@   ensures [C15] ret == nil ==> old(normLen(bodyOf(d.BodyCoords)) > 0)
 //@   unclaimed #requires@ the adders of the description targets are not under contract here
 //@   unclaimed #nil-deref@ see above
 //@   unclaimed #type-assert see above
